@@ -4,6 +4,8 @@ package anytype
 // Documents are derivations of the RFC 8259 grammar with symbolic terminals; the expected tree is
 // built from the same symbolic variables.
 
+import "strconv"
+
 // One symbolic feature per document keeps the case split linear: either one symbolic whitespace
 // byte in slot idx, or one symbolic string character in string idx (value or key), or one number
 // with symbolic digits at scalar position idx; everything else is concrete (and varied by position).
@@ -368,5 +370,35 @@ func H_C03_two_char_strings() {
 		text, dec = m[0]+t1, m[1]+d1
 	}
 	hCheckDoc(true, "[\""+text+"\"]", mval{kind: TypeList, elem: []mval{{kind: TypeString, s: dec}}})
+	verifReach("end")
+}
+
+// every integer literal that fits the platform int: the canonical decimal spelling of every int
+// (digits by the Itoa contract, i.e. fresh digit bytes tied to x by the positional sum) is read back
+// as the int x — by the real parser and by the reference decoder. "-0" is the int 0.
+func H_C03_int_literals() {
+	verifBound("INTDIG", 19)
+	x := nondetInt()
+	t := strconv.Itoa(x)
+	want := mval{kind: TypeInt, i: x}
+	if nondetIntRange(0, 3) == 3 {
+		t, want = "-0", mval{kind: TypeInt, i: 0}
+	}
+	// (the reference decoder's own reading of long digit strings is exercised by H_C03_documents; here
+	// the expected value is x by construction, so only the real parser is run)
+	isList := nondetIntRange(0, 1) == 0
+	var text string
+	var wantDoc mval
+	if isList {
+		text, wantDoc = "[ "+t+"\n]", mval{kind: TypeList, elem: []mval{want}}
+	} else {
+		text, wantDoc = "{\"k\":"+t+"}", mval{kind: TypeObject, keys: []string{"k"}, elem: []mval{want}}
+	}
+	c, err, p := hParseAny(isList, text)
+	verifAssert(!p, "parsing a valid document does not panic")
+	verifAssert(err == nil && c != nil, "parsing a valid document succeeds")
+	if err == nil && c != nil {
+		verifAssert(hExact(wantDoc, hSnapAny(c)), "an integer literal that fits the platform int becomes an int of that value")
+	}
 	verifReach("end")
 }
